@@ -179,7 +179,7 @@ func runCase(c Case) (ret *retained, obs Obs, nontrivial bool) {
 	if !c.NilTab {
 		formatted = map[string][]byte{}
 		for _, p := range c.Pre {
-			formatted[p.F] = jgen.Unhex(p.V)
+			formatted[p.F] = p.Value()
 		}
 	}
 	pre := map[string][]byte{}
